@@ -261,6 +261,11 @@ func (p *parser) finishParsingBodyAttribute(ident Token, singleLine bool) (Node,
         }
     }
 
+    // the value expression (a placeholder after a parse error) may end behind the last consumed token
+    if er := expr.Range(); er.End.Byte > endRange.End.Byte {
+        endRange = er
+    }
+
     return &Attribute{
         Name: string(ident.Bytes),
         Expr: expr,
